@@ -20,11 +20,14 @@ RES_WITH=skipped; RES_WITHOUT=skipped
 if [ -n "$DEMO" ]; then
   PKGDIR=$(grep -m1 -E '^package ' "$DEMO" | awk '{print $2}')
   case "$PKGDIR" in seccomp|seccomp_test) TD="$D";; disasm) TD="$D/cmd/seccomp-profiler/disasm";; arch|arch_test) TD="$D/arch";; main) TD="$D/$(cat "$SRC/demo_dir" 2>/dev/null || echo cmd/seccomp-profiler)";; *) TD="$D";; esac
-  cp "$DEMO" "$TD/zz_seed_demo_test.go"
-  if ( cd "$TD" && go test -vet=off -count=1 -timeout 300s . ) >"$D/.with" 2>&1; then RES_WITH=pass; else RES_WITH=fail; fi
+  cp "$DEMO" "$TD/zz_seed_demo_linux_test.go"
+  # run only the demonstration's own tests (the package's TestLoadFilter installs a filter in the test process)
+  PAT=$(grep -oE '^func (Test[A-Za-z0-9_]+)' "$DEMO" | awk '{print $2}' | paste -sd'|')
+  RACE=""; grep -q '"demo_command".*-race' "$SRC/meta.json" "$SRC/agent_meta.json" 2>/dev/null && RACE="-race"
+  if ( cd "$TD" && go test $RACE -vet=off -count=1 -timeout 300s -run "^($PAT)\$" . ) >"$D/.with" 2>&1; then RES_WITH=pass; else RES_WITH=fail; fi
   ( cd "$D" && git apply -R "$SRC/patch.diff" )
-  if ( cd "$TD" && go test -vet=off -count=1 -timeout 300s . ) >"$D/.without" 2>&1; then RES_WITHOUT=pass; else RES_WITHOUT=fail; fi
-  ( cd "$D" && git apply "$SRC/patch.diff" ); rm -f "$TD/zz_seed_demo_test.go"
+  if ( cd "$TD" && go test $RACE -vet=off -count=1 -timeout 300s -run "^($PAT)\$" . ) >"$D/.without" 2>&1; then RES_WITHOUT=pass; else RES_WITHOUT=fail; fi
+  ( cd "$D" && git apply "$SRC/patch.diff" ); rm -f "$TD/zz_seed_demo_linux_test.go"
 elif [ -f "$SRC/run.sh" ]; then
   # run.sh gets the checkout as its argument and is started from the checkout's root (both conventions occur)
   if ( cd "$D" && sh "$SRC/run.sh" "$D" ) >"$D/.with" 2>&1; then RES_WITH=pass; else RES_WITH=fail; fi
